@@ -4,6 +4,8 @@ import (
 	"fmt"
 	"go/ast"
 	"go/constant"
+	"go/token"
+	"sort"
 	"strings"
 )
 
@@ -19,6 +21,7 @@ func strConst(lean, rel, name string) {
 func facts() {
 	colorFacts()
 	statsFacts()
+	queryFacts()
 	// ---- protocol constants
 	const proto = "internal/protocol/protocol.go"
 	if v, n := findConst(proto, "MessageDelimiter"); v != nil {
@@ -123,6 +126,122 @@ func facts() {
 		}
 		defStringList("regexFlagNames", names, pos(fn)+" NewFlag")
 		defStringList("regexFlagValues", vals, pos(fn)+" NewFlag")
+	}
+}
+
+// query language tables and the aggregator's channel plumbing (C05, C06, C10, C11)
+func queryFacts() {
+	// ---- keyword list
+	const tk = "internal/mapr/token.go"
+	if f := file(tk); f != nil {
+		var kws []string
+		var where ast.Node
+		for _, d := range f.Decls {
+			gd, ok := d.(*ast.GenDecl)
+			if !ok || gd.Tok != token.VAR {
+				continue
+			}
+			for _, sp := range gd.Specs {
+				vs := sp.(*ast.ValueSpec)
+				for i, n := range vs.Names {
+					if n.Name != "keywords" || i >= len(vs.Values) {
+						continue
+					}
+					where = vs
+					if cl, ok := vs.Values[i].(*ast.CompositeLit); ok {
+						for _, e := range cl.Elts {
+							// an array/slice element, or the key of a map used as a set
+							if kv, ok := e.(*ast.KeyValueExpr); ok {
+								e = kv.Key
+							}
+							if str, ok := constStr(eval(e, nil)); ok {
+								kws = append(kws, str)
+							}
+						}
+					}
+				}
+			}
+		}
+		if where == nil {
+			problem("keywords not found in %s", tk)
+		} else {
+			sort.Strings(kws) // a set: order is irrelevant to isKeyword
+			defStringList("queryKeywords", kws, pos(where)+" keywords (sorted)")
+		}
+	}
+	// ---- switch tables: where operators and select aggregations; `fallthrough` rows take the
+	// body of the next row
+	table := func(lean, rel, fn, prefix string) {
+		f := findFunc(rel, "", fn)
+		if f == nil {
+			return
+		}
+		for _, rows := range switchTables(f) {
+			var names, vals []string
+			ok := false
+			for i := range rows {
+				if rows[i].isDef {
+					continue
+				}
+				body := rows[i].body
+				for j := i; body == "fallthrough" && j+1 < len(rows); j++ {
+					body = rows[j+1].body
+				}
+				if strings.HasPrefix(body, prefix) {
+					ok = true
+				}
+				for _, l := range rows[i].labels {
+					names = append(names, l)
+					vals = append(vals, strings.TrimPrefix(body, prefix))
+				}
+			}
+			if ok {
+				defStringList(lean+"Names", names, pos(f)+" "+fn)
+				defStringList(lean+"Values", vals, pos(f)+" "+fn)
+				return
+			}
+		}
+		problem("%s: switch table with prefix %q not found", fn, prefix)
+	}
+	table("whereOp", "internal/mapr/wherecondition.go", "makeWhereConditions", "wc.Operation = ")
+	table("selectAgg", "internal/mapr/selectcondition.go", "makeSelectConditions", "sc.Operation = ")
+
+	// ---- the server-side aggregator: queue of line channels and its rotation
+	const ag = "internal/mapr/server/aggregate.go"
+	if fn := findFunc(ag, "", "NewAggregate"); fn != nil {
+		if e := keyValue(fn, "NextLinesCh"); e != nil {
+			defNat("nextLinesChCap", chanCap(e, nil), pos(e)+" NextLinesCh")
+		} else {
+			problem("NewAggregate: NextLinesCh not found")
+		}
+	}
+	if fn := findFunc(ag, "Aggregate", "nextLine"); fn != nil {
+		// every send into a.NextLinesCh inside nextLine() happens in a goroutine of its own
+		// (`go func() { a.NextLinesCh <- old }()`), so the aggregator never blocks on its own queue
+		sends, async := 0, 0
+		var walk func(n ast.Node, inGo bool)
+		walk = func(n ast.Node, inGo bool) {
+			ast.Inspect(n, func(x ast.Node) bool {
+				switch v := x.(type) {
+				case *ast.GoStmt:
+					if !inGo {
+						walk(v.Call, true)
+						return false
+					}
+				case *ast.SendStmt:
+					if strings.HasSuffix(src(v.Chan), "NextLinesCh") {
+						sends++
+						if inGo {
+							async++
+						}
+					}
+				}
+				return true
+			})
+		}
+		walk(fn.Body, false)
+		defNat("rotationRequeueSends", constant.MakeInt64(int64(sends)), pos(fn)+" nextLine: sends into NextLinesCh")
+		defBool("rotationRequeueAsync", sends > 0 && sends == async, pos(fn)+" nextLine: every such send is inside a go statement")
 	}
 }
 
